@@ -477,6 +477,21 @@ theorem decompose_good2 {h h' : Heap} {x : Nat} (hg : Good2 h) (hd : decompose h
   rw [hW.next, hnext] at hn
   exact hg.2 n hn
 
+theorem decomposeAll_good2 : ∀ (cs : List Nat) (h h' : Heap), Good2 h → decomposeAll h cs = .ok h' → Good2 h' ∧ KSame h h' := by
+  intro cs
+  induction cs with
+  | nil => intro h h' hg hd; simp only [decomposeAll] at hd; cases hd; exact ⟨hg, KSame.refl _⟩
+  | cons c cs ih =>
+    intro h h' hg hd
+    simp only [decomposeAll] at hd
+    cases hc : decompose h c with
+    | error e => simp only [hc] at hd; cases hd
+    | ok h1 =>
+      simp only [hc] at hd
+      obtain ⟨hg1, hk1⟩ := decompose_good2 hg hc
+      obtain ⟨hg', hk'⟩ := ih h1 h' hg1 hd
+      exact ⟨hg', hk1.trans hk'⟩
+
 /-! ## 4. every editing call -/
 
 /-- **every** editing call that returns keeps the forest consistent -/
@@ -486,6 +501,10 @@ theorem step_good2 {h h' : Heap} {op : Op} (hg : Good2 h) (hk : op.kindsOK) (hs 
   | false => exact step_good2_noDecompose extract_spec linkChild_spec hg hd hk hs
   | true =>
     cases op <;> simp only [Op.isDecompose] at hd <;> try (cases hd)
-    exact decompose_good2 hg hs
+    · exact decompose_good2 hg hs
+    · simp only [step] at hs
+      split at hs
+      · exact decomposeAll_good2 _ _ _ hg hs
+      · cases hs
 
 end BS.Heap
